@@ -233,6 +233,7 @@ class World(object):
         self.log = []
         self.steps = 0
         self.conns = []
+        self.connect_refusals = []     # consumed one per connection attempt: True = that attempt is refused
         self.scheduler = scheduler
         if scheduler is not None:
             scheduler.clock = self.clock
@@ -254,6 +255,9 @@ class World(object):
     def _new_socket(self, kind='tcp'):
         self.step()
         self.yield_point('connect')
+        if self.connect_refusals and self.connect_refusals.pop(0):
+            self.log.append(('connect-refused', self.current()))
+            raise _realsocket.error(111, 'Connection refused')
         s = FakeSocket(self, kind)
         self.conns.append(s)
         self.log.append(('connect', self.current()))
